@@ -32,16 +32,16 @@ const w3Channel = "m"
 // ---------------------------------------------------------------- script
 
 type w3Cfg struct {
-	Mode         int  `json:"mode"`           // 1 ephemeral, 2 recoverable, 3 persistent
-	Ordered      bool `json:"ordered"`        // score-ordered state
-	KeyTTLMs     int  `json:"key_ttl_ms"`     // modes with expiry
-	StreamSize   int  `json:"stream_size"`    // stream modes
-	StreamTTLMs  int  `json:"stream_ttl_ms"`  // stream modes
-	MetaTTLMs    int  `json:"meta_ttl_ms"`    // 0 = auto
-	LiveLimit    int  `json:"live_limit"`     // LiveTransitionMaxPublicationLimit, 0 = MaxPageSize
-	MaxPage      int  `json:"max_page"`       // MaxPageSize
+	Mode         int  `json:"mode"`          // 1 ephemeral, 2 recoverable, 3 persistent
+	Ordered      bool `json:"ordered"`       // score-ordered state
+	KeyTTLMs     int  `json:"key_ttl_ms"`    // modes with expiry
+	StreamSize   int  `json:"stream_size"`   // stream modes
+	StreamTTLMs  int  `json:"stream_ttl_ms"` // stream modes
+	MetaTTLMs    int  `json:"meta_ttl_ms"`   // 0 = auto
+	LiveLimit    int  `json:"live_limit"`    // LiveTransitionMaxPublicationLimit, 0 = MaxPageSize
+	MaxPage      int  `json:"max_page"`      // MaxPageSize
 	NKeys        int  `json:"nkeys"`
-	UseDelta     bool `json:"use_delta"`      // writers publish with UseDelta, fossil allowed
+	UseDelta     bool `json:"use_delta"` // writers publish with UseDelta, fossil allowed
 	SingleFlight bool `json:"single_flight"`
 	DropPm       int  `json:"pubsub_drop_pm"`  // broker->node hand-over lost (stream modes only)
 	DelayPm      int  `json:"pubsub_delay_pm"` // broker->node hand-over late (stream modes only)
@@ -57,8 +57,8 @@ type w3WOp struct {
 }
 
 type w3COp struct {
-	K      string `json:"k"`               // sync | recover | unsub | drop | refresh | sleep
-	Limit  int    `json:"limit,omitempty"` // state page size
+	K      string `json:"k"`                // sync | recover | unsub | drop | refresh | sleep
+	Limit  int    `json:"limit,omitempty"`  // state page size
 	SLimit int    `json:"slimit,omitempty"` // stream page size
 	Delays []int  `json:"delays,omitempty"` // microseconds before request i of the flow
 	Via    string `json:"via,omitempty"`    // recover: live | stream
@@ -255,8 +255,10 @@ func (b *w3Broker) HandlePublication(ch string, pub *Publication, sp StreamPosit
 	}
 	return b.node.HandlePublication(ch, pub, sp, delta, prev)
 }
-func (b *w3Broker) HandleJoin(ch string, info *ClientInfo) error  { return b.node.HandleJoin(ch, info) }
-func (b *w3Broker) HandleLeave(ch string, info *ClientInfo) error { return b.node.HandleLeave(ch, info) }
+func (b *w3Broker) HandleJoin(ch string, info *ClientInfo) error { return b.node.HandleJoin(ch, info) }
+func (b *w3Broker) HandleLeave(ch string, info *ClientInfo) error {
+	return b.node.HandleLeave(ch, info)
+}
 
 func (w *w3World) chanOpts() MapChannelOptions {
 	cfg := w.sc.Cfg
